@@ -132,9 +132,14 @@ def _c20_chain(args):
 
 def run(chk):
     pid, tier = chk.pid, chk.tier
-    rows, r = chk.model_check('MC_System.tla', 'MC_System_%s_%s.cfg' % (pid, tier), label='MC_System', heap='12g', timeout=3000)
+    # thorough tier: TLC checks the whole (larger) instance; of its transition cover a deterministic sample of at most 300 000
+    # behaviours is replayed on the real objects (the quick tier replays the complete cover of its instance)
+    rows, r = chk.model_check('MC_System.tla', 'MC_System_%s_%s.cfg' % (pid, tier), label='MC_System', heap='12g', timeout=3000,
+                              sample_target=(300000 if tier == 'thorough' else None), seed=None, keep_out=False)
     behs = behaviours_from(r.printed)
-    chk.extra['model'] = {'distinct_states': r.distinct, 'transitions': r.generated, 'behaviours_in_cover': len(behs)}
+    chk.extra['model'] = {'distinct_states': r.distinct, 'transitions': r.generated, 'behaviours_in_cover': getattr(r, 'printed_total', len(behs)),
+                          'cover_sample': '1/%d' % getattr(r, 'sample_mod', 1)}
+    r.printed = []
     # the negative instance must be REJECTED by TLC (an invariant that never fails is no evidence)
     if pid == 'C20':
         rn = tlc.run('MC_System.tla', 'MC_System_C20_neg.cfg')
